@@ -49,6 +49,22 @@ func (f *Font) Subset(glyphs []glyph.ID) *Font {
 		s.newGid[oldGid] = glyph.ID(newgid)
 	}
 
+	// Find the additional glyphs needed: outputs of GSUB rules between
+	// included glyphs, and components of included composite glyphs.  Each of
+	// the two steps can make more glyphs necessary for the other one, so we
+	// repeat them until the list of glyphs is stable.
+	for {
+		n := len(s.glyphs)
+		s.addGsubGlyphs(f.Gsub)
+		if outlines, ok := f.Outlines.(*glyf.Outlines); ok {
+			s.addComponents(outlines)
+		}
+		if len(s.glyphs) == n {
+			break
+		}
+	}
+	// At this point we have the final list of glyphs.
+
 	res.Gsub = s.SubsetGsub(f.Gsub)
 
 	switch outlines := f.Outlines.(type) {
@@ -57,7 +73,6 @@ func (f *Font) Subset(glyphs []glyph.ID) *Font {
 	case *glyf.Outlines:
 		res.Outlines = s.SubsetGlyf(outlines)
 	}
-	// At this point we have the final list of glyphs.
 
 	res.Gpos = s.SubsetGpos(f.Gpos)
 	res.Gdef = s.SubsetGdef(f.Gdef)
@@ -170,10 +185,11 @@ func macRomanCodes(c cmap.Subtable) cmap.Subtable {
 	}
 }
 
-// TODO(voss): This is incomplete.  Finish this!
-func (s *subsetter) SubsetGsub(old *gtab.Info) *gtab.Info {
+// addGsubGlyphs adds the glyphs which GSUB rules can produce from the glyphs
+// already included.
+func (s *subsetter) addGsubGlyphs(old *gtab.Info) {
 	if old == nil {
-		return nil
+		return
 	}
 
 	// step 1: make a list of all GSUB rules
@@ -290,7 +306,17 @@ func (s *subsetter) SubsetGsub(old *gtab.Info) *gtab.Info {
 		}
 	}
 
-	// step 3: create the new GSUB table
+}
+
+// SubsetGsub creates the new GSUB table.  The glyphs produced by the retained
+// rules must already be included (see addGsubGlyphs).
+//
+// TODO(voss): This is incomplete.  Finish this!
+func (s *subsetter) SubsetGsub(old *gtab.Info) *gtab.Info {
+	if old == nil {
+		return nil
+	}
+
 	res := *old
 	res.LookupList = nil
 	for _, tOld := range old.LookupList {
@@ -503,12 +529,8 @@ func (s *subsetter) SubsetCFF(oldOutlines *cff.Outlines) *cff.Outlines {
 	return newOutlines
 }
 
-func (s *subsetter) SubsetGlyf(oldOutlines *glyf.Outlines) *glyf.Outlines {
-	newOutlines := &glyf.Outlines{
-		Tables: oldOutlines.Tables,
-		Maxp:   oldOutlines.Maxp,
-	}
-
+// addComponents adds the components of the included composite glyphs.
+func (s *subsetter) addComponents(oldOutlines *glyf.Outlines) {
 	todo := make(map[glyph.ID]bool, len(s.glyphs))
 	for _, oldGid := range s.glyphs {
 		todo[oldGid] = true
@@ -525,6 +547,13 @@ func (s *subsetter) SubsetGlyf(oldOutlines *glyf.Outlines) *glyf.Outlines {
 			s.newGid[componentGidOld] = componendGidNew
 			todo[componentGidOld] = true
 		}
+	}
+}
+
+func (s *subsetter) SubsetGlyf(oldOutlines *glyf.Outlines) *glyf.Outlines {
+	newOutlines := &glyf.Outlines{
+		Tables: oldOutlines.Tables,
+		Maxp:   oldOutlines.Maxp,
 	}
 
 	newOutlines.Glyphs = make([]*glyf.Glyph, len(s.glyphs))
